@@ -356,7 +356,7 @@ impl Prop for C18 {
     }
     fn run_worker(&self, ctx: &Ctx, rep: &mut Report) {
         texts(ctx, rep);
-        let n = ctx.share(ctx.tier.pick(8_000, 120_000));
+        let n = ctx.share(ctx.tier.pick(20_000, 200_000));
         drive(ctx, rep, "configs", cases(), n, &mut |c: &Case| judge_case(c));
     }
     fn replay(&self, _ctx: &Ctx, case: &Value) -> Obs {
